@@ -94,9 +94,12 @@ CLAIMED = {
             "column-wise ones under column permutations and zero columns; the real aggregators are checked on J, JQ, "
             "permuted and padded matrices.", NOTE_AGG, "DESIGN.md §5 C08, §10"),
     "C09": ("Lean 4 theorems (fixed_weights_linear, pcgrad_linear_under_scaling via the vector-space refinement, "
-            "config_linear_under_scaling) + scaling-triple correspondence; UPGrad defect measured on a reg_eps ladder",
-            "Exact linearity under positive row scaling is proved for the aggregators the property lists except UPGrad, "
-            "whose quantitative defect bound is measured, not proved.", NOTE_AGG, "DESIGN.md §5 C09, §10.3"),
+            "config_linear_under_scaling; C09b: reg_close_to_unreg, unreg_scaleRows, upgrad_unreg_linear, "
+            "upgrad_linearity_defect_sq, upgrad_defect_bound_computed) + scaling-triple correspondence; UPGrad's proved "
+            "defect bound evaluated exactly by the model on the implementation's outputs along a reg_eps ladder",
+            "Exact linearity under positive row scaling is proved for the aggregators the property lists; for UPGrad the "
+            "defect bound is proved in squared form (|defect|^2 <= 3 m reg_eps (s^2 S(c) + ...), S from the un-regularised "
+            "minimisers, whose existence is a hypothesis supplied by the model's certified search).", NOTE_AGG, "DESIGN.md §5 C09, §10.3"),
     "C10": ("Lean 4 theorems (combine_row_perm, isQPMin_perm + uniqueness => dualproj/upgrad_row_perm, "
             "trimmedMean/graddrop_row_perm) + exhaustive m! permutation correspondence",
             "Row-permutation invariance is proved for linear, QP-based, TrimmedMean and GradDrop models; MGDA, Krum, CAGrad, "
